@@ -36,7 +36,17 @@ def make_payload(rng, idx, tier):
 
 
 def select(P, r):
-    return {i for i, s in enumerate(P.stmts) if "simple" in s.flags and not s.label and s.role is None and r.random() < 0.35}
+    """whole simple statements; labelled ones too when the label fits behind a fixed-form sentinel (<= 3 digits) and
+    the statement does not terminate a DO loop (role None)"""
+    out = set()
+    for i, s in enumerate(P.stmts):
+        if s.role is not None or s.cname:
+            continue
+        if "simple" in s.flags and not s.label and r.random() < 0.35:
+            out.add(i)
+        elif s.label and len(s.label) <= 3 and s.kind in ("assign", "continue") and r.random() < 0.5:
+            out.add(i)
+    return out
 
 
 def render_free(P, S, r):
@@ -62,6 +72,8 @@ def render_free(P, S, r):
                     if j == 0:
                         lines.append(pre + p + ("&" if not last else ""))
                     else:
+                        if r.random() < 0.3:
+                            lines.append(r.choice(["  ! an ordinary comment", "", "   !x"]))
                         cpre = r.choice(["!$ &", "!$& ", "!$ ", "  !$ & ", "!$&"])
                         lines.append(cpre + p + ("" if last else " &"))
                     nsent += 1
@@ -100,11 +112,12 @@ def render_fixed(P, S, r):
             fixed_chunks.append(carry)
         elif carry and fixed_chunks:
             pass
-        sent = r.choice(["!$", "c$", "C$", "*$"]) if i in S else None
+        sent = r.choice(["!$", "c$", "C$", "*$"]) if i in S and len(label) <= 3 else None
         for j, c in enumerate(fixed_chunks):
             if j == 0:
                 if sent:
-                    lines.append(sent + label.rjust(3)[:3] + r.choice([" ", " ", "0"]) + c)
+                    lab3 = label.rjust(3) if r.random() < 0.5 else label.ljust(3)
+                    lines.append(sent + lab3 + r.choice([" ", " ", "0"]) + c)
                     nsent += 1
                 else:
                     lines.append(label.ljust(5) + " " + c)
@@ -172,6 +185,7 @@ def one(P, std, payload, mons=None):
         return viol("enabled-comments-kept:rejected", "(%s) %s" % (form, err)), text, len(S)
     want = [l.strip() for l in text.split("\n") if l.strip().lower()[1:6] in ("$omp ", "$omp&", "$acc ") or l.strip().lower()[1:5] in ("$omp", "$acc")]
     got = [str(c).strip() for c in fp.walk(onc, fp.F03.Comment) if str(c).strip()]
+    got = [g for g in got if g.lower()[1:5] in ("$omp", "$acc")]
     if sorted(got) != sorted(want):
         return viol("enabled:directive-not-a-comment", "(%s) directive comments %r, expected %r" % (form, got[:4], want[:4])), text, len(S)
     if mons is not None:
